@@ -196,6 +196,7 @@ pub fn run(r: &Report) {
     let mut txs = gen::txs_witness_classes();
     txs.extend(gen::txs_shapes());
     txs.extend(gen::txs_degenerate_witness());
+    txs.extend(gen::txs_input_variants());
     txs.extend(gen::txs_varint_boundaries(thorough));
     r.set_extra("transactions_generated", json!(txs.len()));
     let tx_encs: Vec<Option<Vec<u8>>> = txs
